@@ -17,7 +17,9 @@ class Proj:
         """scale: storage units per model unit of the compared quantity; amounts of ~100 model units are subtracted
         from one another, so differences carry double-precision noise of ~1e-14 * 100 * scale whatever the
         library's rounding quantum is (it matters for nL / nmol storage, where values reach 1e11)."""
-        return 1e-6 * abs(expected) + 100 * self.quantum * max(k, 1) + 2e-11 * scale
+        # extra_rel: set by the replay for transitions on paths through operations driven by a STATED CONCENTRATION - the
+        # library rounds a parsed concentration c to its quantum, so everything derived from it is uncertain by quantum / c
+        return (1e-6 + getattr(self, "extra_rel", 0.0)) * abs(expected) + 100 * self.quantum * max(k, 1) + 2e-11 * scale
 
     def close(self, x, expected, k=1, scale=0.0):
         return abs(x - expected) <= self.tol(expected, k, scale)
